@@ -115,20 +115,28 @@ func lateRoots(s *hx.Schema) map[string]bool {
 			out[n] = true
 		}
 	}
-	uses := func(t *hx.TRef) {
-		delete(out, t.BaseName())
-	}
-	for _, td := range s.Types {
-		for _, f := range td.Fields {
-			if !out[td.Name] {
-				uses(f.Type)
+	// a type stays late only while everything that refers to it is late as well (a late type may
+	// refer to the other late type: both arrive together)
+	for changed := true; changed; {
+		changed = false
+		for _, td := range s.Types {
+			if out[td.Name] {
+				continue
+			}
+			for _, f := range td.Fields {
+				if out[f.Type.BaseName()] {
+					delete(out, f.Type.BaseName())
+					changed = true
+				}
+			}
+			for _, m := range td.Members {
+				if out[m] {
+					delete(out, m)
+					changed = true
+				}
 			}
 		}
-		for _, m := range td.Members {
-			delete(out, m)
-		}
 	}
-	// (a late type may refer to the other late type: both arrive together)
 	return out
 }
 
